@@ -14,6 +14,337 @@ Definition sole_file (d : dirst) (u : bytes) (adm : bool) (content : bytes) : Pr
   dlookup (u ++ ext_of adm) d = Some (File content) /\
   dlookup (u ++ ext_of (negb adm)) d = None.
 
+
+(* ------------------------------------------------------------------ *)
+(* Auxiliaries: directory algebra *)
+Lemma dlookup_dset_eq k v d : dlookup k (dset k v d) = Some v.
+Proof.
+  induction d as [|[k' v'] d IH]; cbn [dset dlookup].
+  - now rewrite beq_refl.
+  - destruct (beq k k') eqn:E; cbn [dlookup].
+    + now rewrite beq_refl.
+    + now rewrite E.
+Qed.
+
+Lemma dlookup_dset_ne k k' v d : k <> k' -> dlookup k' (dset k v d) = dlookup k' d.
+Proof.
+  intros H. assert (Hk : beq k' k = false) by (apply beq_neq; congruence).
+  induction d as [|[k2 v2] d IH]; cbn [dset dlookup].
+  - now rewrite Hk.
+  - destruct (beq k k2) eqn:E; cbn [dlookup].
+    + apply beq_eq in E. subst k2. now rewrite Hk.
+    + now rewrite IH.
+Qed.
+
+Lemma dlookup_dremove_eq k d : dlookup k (dremove k d) = None.
+Proof.
+  induction d as [|[k' v'] d IH]; cbn [dremove dlookup]; auto.
+  destruct (beq k k') eqn:E; cbn [dlookup]; auto.
+  now rewrite E.
+Qed.
+
+Lemma dlookup_dremove_ne k k' d : k <> k' -> dlookup k' (dremove k d) = dlookup k' d.
+Proof.
+  intros H. assert (Hk : beq k' k = false) by (apply beq_neq; congruence).
+  induction d as [|[k2 v2] d IH]; cbn [dremove dlookup]; auto.
+  destruct (beq k k2) eqn:E; cbn [dlookup].
+  - apply beq_eq in E. subst k2. now rewrite Hk.
+  - now rewrite IH.
+Qed.
+
+Lemma dlookup_In k v d : dlookup k d = Some v -> In (k, v) d.
+Proof.
+  induction d as [|[k' v'] d IH]; cbn [dlookup]; [discriminate|].
+  destruct (beq k k') eqn:E; intros H.
+  - apply beq_eq in E. injection H as H. subst. now left.
+  - right. auto.
+Qed.
+
+Lemma In_keys k (v : node) d : In (k, v) d -> In k (keys d).
+Proof. intros H. unfold keys. change k with (fst (k, v)). now apply in_map. Qed.
+
+Lemma In_dlookup k v d : NoDup (keys d) -> In (k, v) d -> dlookup k d = Some v.
+Proof.
+  induction d as [|[k' v'] d IH]; intros Hnd Hin; [destruct Hin|].
+  cbn [keys map fst] in Hnd. inversion Hnd as [|x l Hni Hnd' Heq]; subst.
+  cbn [dlookup]. destruct Hin as [Hin|Hin].
+  - injection Hin as Hk Hv. subst. now rewrite beq_refl.
+  - destruct (beq k k') eqn:E.
+    + apply beq_eq in E. subst k'. exfalso. apply Hni. eapply In_keys; eauto.
+    + auto.
+Qed.
+
+(* ------------------------------------------------------------------ *)
+(* Auxiliaries: prefixes, suffixes, file-name extensions *)
+Lemma has_prefix_app p t : has_prefix p (p ++ t) = true.
+Proof.
+  induction p as [|x p IH]; cbn [has_prefix app]; auto.
+  now rewrite N.eqb_refl, IH.
+Qed.
+
+Lemma has_prefix_inv p : forall s, has_prefix p s = true -> exists t, s = p ++ t.
+Proof.
+  induction p as [|x p IH]; intros s H.
+  - exists s. reflexivity.
+  - destruct s as [|y s]; cbn [has_prefix] in H; [discriminate|].
+    apply andb_true_iff in H as [Hxy Hp]. apply N.eqb_eq in Hxy. subst y.
+    destruct (IH s Hp) as [t Ht]. exists t. subst s. reflexivity.
+Qed.
+
+Lemma has_suffix_app p t : has_suffix p (t ++ p) = true.
+Proof. unfold has_suffix. rewrite rev_app_distr. apply has_prefix_app. Qed.
+
+Lemma has_suffix_inv p s : has_suffix p s = true -> exists t, s = t ++ p.
+Proof.
+  unfold has_suffix. intros H. apply has_prefix_inv in H as [t Ht]. exists (rev t).
+  rewrite <- (rev_involutive s), Ht, rev_app_distr, rev_involutive. reflexivity.
+Qed.
+
+Lemma has_suffix_last p s a b :
+  has_suffix (p ++ [a]) (s ++ [b]) = (a =? b) && has_suffix p s.
+Proof. unfold has_suffix. rewrite !rev_app_distr. reflexivity. Qed.
+
+Lemma firstn_len_app (t p : bytes) : firstn (length (t ++ p) - length p) (t ++ p) = t.
+Proof.
+  rewrite app_length, Nat.add_sub.
+  induction t as [|x t IH]; cbn [length firstn app].
+  - destruct p; reflexivity.
+  - now rewrite IH.
+Qed.
+
+Lemma admin_not_user_suffix u : has_suffix ext_admin (u ++ ext_user) = false.
+Proof.
+  change ext_admin with (str ".admi" ++ [110]).
+  change ext_user with (str ".use" ++ [114]).
+  rewrite app_assoc, has_suffix_last. reflexivity.
+Qed.
+
+Lemma check_user_file_admin u : check_user_file (u ++ ext_admin) = Some (u, true).
+Proof.
+  unfold check_user_file. rewrite has_suffix_app, firstn_len_app. reflexivity.
+Qed.
+
+Lemma check_user_file_user u : check_user_file (u ++ ext_user) = Some (u, false).
+Proof.
+  unfold check_user_file.
+  rewrite admin_not_user_suffix, has_suffix_app, firstn_len_app. reflexivity.
+Qed.
+
+Lemma check_user_file_ext u a : check_user_file (u ++ ext_of a) = Some (u, a).
+Proof. destruct a; [apply check_user_file_admin | apply check_user_file_user]. Qed.
+
+Lemma check_user_file_inv f u a : check_user_file f = Some (u, a) -> f = u ++ ext_of a.
+Proof.
+  unfold check_user_file. intros H.
+  destruct (has_suffix ext_admin f) eqn:Ea.
+  - apply has_suffix_inv in Ea as [t Ht]. subst f. rewrite firstn_len_app in H.
+    injection H as Hu Ha. subst. reflexivity.
+  - destruct (has_suffix ext_user f) eqn:Eu; [|discriminate].
+    apply has_suffix_inv in Eu as [t Ht]. subst f. rewrite firstn_len_app in H.
+    injection H as Hu Ha. subst. reflexivity.
+Qed.
+
+Lemma ext_inj u a v b : u ++ ext_of a = v ++ ext_of b -> u = v /\ a = b.
+Proof.
+  intros H. pose proof (check_user_file_ext u a) as H1. rewrite H in H1.
+  rewrite check_user_file_ext in H1. injection H1 as Hu Ha. auto.
+Qed.
+
+Lemma ext_neq u a : u ++ ext_of a <> u ++ ext_of (negb a).
+Proof. intros H. apply ext_inj in H as [_ H]. destruct a; discriminate. Qed.
+
+Lemma admin_neq_user u : u ++ ext_admin <> u ++ ext_user.
+Proof. exact (ext_neq u true). Qed.
+
+Lemma valid_not_tmp u e : valid_name u = true -> u ++ e <> tmp_name.
+Proof.
+  destruct u as [|x u]; cbn [valid_name]; [discriminate|].
+  intros H E. apply andb_true_iff in H as [H _].
+  injection E as Ex _. subst x. vm_compute in H. discriminate.
+Qed.
+
+Lemma check_user_file_tmp : check_user_file tmp_name = None.
+Proof. reflexivity. Qed.
+
+Lemma len_ext u a : len (u ++ ext_of a) <= len u + 6.
+Proof.
+  unfold len. rewrite app_length.
+  destruct a; cbn [ext_of];
+    [change (length ext_admin) with 6%nat | change (length ext_user) with 5%nat]; lia.
+Qed.
+
+Lemma stat_file_short d f :
+  len f <= 255 ->
+  stat_file d f = match dlookup f d with Some _ => StYes | None => StNo end.
+Proof.
+  intros H. unfold stat_file, name_max.
+  destruct (255 <? len f) eqn:E; [lia|reflexivity].
+Qed.
+
+Lemma stat_file_ext d u a :
+  len u + 6 <= 255 ->
+  stat_file d (u ++ ext_of a) =
+  match dlookup (u ++ ext_of a) d with Some _ => StYes | None => StNo end.
+Proof. intros H. apply stat_file_short. pose proof (len_ext u a). lia. Qed.
+
+Lemma stat_file_yes d f : stat_file d f = StYes -> exists n, dlookup f d = Some n.
+Proof.
+  unfold stat_file. destruct (name_max <? len f); [discriminate|].
+  destruct (dlookup f d) as [n|]; [eauto|discriminate].
+Qed.
+
+Lemma stat_file_no d f : stat_file d f = StNo -> dlookup f d = None.
+Proof.
+  unfold stat_file. destruct (name_max <? len f); [discriminate|].
+  destruct (dlookup f d) as [n|]; [discriminate|auto].
+Qed.
+
+Lemma user_exists_yes d u cur :
+  user_exists d u = ExYes cur ->
+  (exists n, dlookup (u ++ ext_of cur) d = Some n) /\
+  (cur = false -> dlookup (u ++ ext_admin) d = None).
+Proof.
+  unfold user_exists.
+  destruct (stat_file d (u ++ ext_admin)) eqn:Ea; [| |discriminate].
+  - intros H. injection H as H. subst cur. split; [|discriminate].
+    apply stat_file_yes in Ea. exact Ea.
+  - destruct (stat_file d (u ++ ext_user)) eqn:Eu; [| discriminate | discriminate].
+    intros H. injection H as H. subst cur. split.
+    + apply stat_file_yes in Eu. exact Eu.
+    + intros _. apply stat_file_no in Ea. exact Ea.
+Qed.
+
+Lemma sole_exists d u adm content : sole_file d u adm content -> user_exists d u = ExYes adm.
+Proof.
+  intros (Hv & Hl & Hf & Hn). unfold user_exists.
+  change ext_admin with (ext_of true). change ext_user with (ext_of false).
+  rewrite !stat_file_ext by assumption.
+  destruct adm; cbn [negb] in Hn.
+  - now rewrite Hf.
+  - now rewrite Hn, Hf.
+Qed.
+
+Lemma sole_entries d u adm content :
+  NoDup (keys d) -> sole_file d u adm content ->
+  forall f n a, In (f, n) d -> check_user_file f = Some (u, a) ->
+                a = adm /\ n = File content /\ f = u ++ ext_of adm.
+Proof.
+  intros Hnd (Hv & Hl & Hf & Hn) f n a Hin Hc.
+  apply check_user_file_inv in Hc. subst f.
+  apply (In_dlookup _ _ _ Hnd) in Hin.
+  destruct (Bool.bool_dec a adm) as [->|Hne].
+  - rewrite Hf in Hin. injection Hin as Hin. auto.
+  - assert (a = negb adm) as -> by (destruct a, adm; cbn [negb]; congruence).
+    rewrite Hn in Hin. discriminate.
+Qed.
+
+Lemma not_supported_node c content :
+  is_supported c content = false ->
+  match supp_of_node c (File content) with SuppInfo true _ _ _ => False | _ => True end.
+Proof.
+  unfold is_supported. cbn [supp_of_node].
+  destruct (format_supported_full c content) as [|[] ? ? ?]; auto. discriminate.
+Qed.
+
+
+Lemma list_users_hidden c u : forall d acc l,
+  (forall f n a, In (f, n) d -> check_user_file f = Some (u, a) ->
+     match supp_of_node c n with SuppInfo true _ _ _ => False | _ => True end) ->
+  alookup u acc = None -> list_users c d acc = Some l -> alookup u l = None.
+Proof.
+  induction d as [|[f n] r IH]; intros acc l Hent Hacc Hl.
+  - cbn [list_users] in Hl. injection Hl as Hl. subst l. exact Hacc.
+  - cbn [list_users] in Hl.
+    assert (Hent' : forall f n a, In (f, n) r -> check_user_file f = Some (u, a) ->
+              match supp_of_node c n with SuppInfo true _ _ _ => False | _ => True end).
+    { intros f0 n0 a0 Hin. apply Hent. now right. }
+    destruct (beq f tmp_name); [eapply IH; eauto|].
+    destruct (check_user_file f) as [[u' a']|] eqn:Ec; [|discriminate].
+    destruct (negb (valid_name u')); [eapply IH; eauto|].
+    destruct (supp_of_node c n) as [|s fm ts pid] eqn:Es; [eapply IH; eauto|].
+    destruct s; [|eapply IH; eauto].
+    eapply IH; [exact Hent'| |exact Hl].
+    destruct (beq u' u) eqn:Eu.
+    + apply beq_eq in Eu. subst u'.
+      specialize (Hent f n a' (or_introl eq_refl) Ec). rewrite Es in Hent. destruct Hent.
+    + apply beq_neq in Eu. rewrite alookup_aset_ne by exact Eu. exact Hacc.
+Qed.
+
+Definition shown_entry (adm : bool) (e : user_full) : Prop :=
+  uf_supported e = false /\ uf_admin e = adm.
+
+Lemma list_full_shown c u adm content :
+  is_supported c content = false -> u ++ ext_of adm <> tmp_name ->
+  forall d acc l,
+  (forall f n a, In (f, n) d -> check_user_file f = Some (u, a) -> a = adm /\ n = File content) ->
+  (In (u ++ ext_of adm, File content) d \/ exists e, alookup u acc = Some e /\ shown_entry adm e) ->
+  list_full c d acc = Some l ->
+  exists e, alookup u l = Some e /\ shown_entry adm e.
+Proof.
+  intros Hsup Htmp.
+  induction d as [|[f n] r IH]; intros acc l Hent Hor Hl.
+  - cbn [list_full] in Hl. injection Hl as Hl. subst l.
+    destruct Hor as [[]|Hor]. exact Hor.
+  - cbn [list_full] in Hl.
+    assert (Hent' : forall f n a, In (f, n) r -> check_user_file f = Some (u, a) ->
+                                  a = adm /\ n = File content).
+    { intros f0 n0 a0 Hin. apply Hent. now right. }
+    destruct (beq f tmp_name) eqn:Et.
+    { apply beq_eq in Et. subst f. eapply IH; [exact Hent'| |exact Hl].
+      destruct Hor as [[Hin|Hin]|Hor]; [|now left|now right].
+      injection Hin as Hin _. symmetry in Hin. contradiction. }
+    destruct (check_user_file f) as [[u' a']|] eqn:Ec; [|discriminate].
+    destruct (beq u' u) eqn:Eu.
+    + apply beq_eq in Eu. subst u'.
+      destruct (Hent f n a' (or_introl eq_refl) Ec) as [-> ->].
+      eapply IH; [exact Hent'| |exact Hl]. right.
+      rewrite alookup_aset_eq. eexists. split; [reflexivity|].
+      unfold shown_entry. cbn [supp_of_node]. unfold is_supported in Hsup.
+      destruct (format_supported_full c content) as [|[] ? ? ?]; cbn; auto.
+    + apply beq_neq in Eu.
+      eapply IH; [exact Hent'| |exact Hl].
+      destruct Hor as [[Hin|Hin]|Hor]; [|now left|].
+      * injection Hin as Hf Hn. subst f. rewrite check_user_file_ext in Ec.
+        injection Ec as Hu _. congruence.
+      * right. rewrite alookup_aset_ne by exact Eu. exact Hor.
+Qed.
+
+
+(* ------------------------------------------------------------------ *)
+(* Auxiliaries: an order-independent description of check_loop *)
+Definition entry_ok (all : dirst) (e : bytes * node) : bool :=
+  beq (fst e) tmp_name ||
+  match check_user_file (fst e) with
+  | None => false
+  | Some (u, adm) =>
+      negb (valid_name u) ||
+      match stat_file all (u ++ ext_of (negb adm)) with StNo => true | _ => false end
+  end.
+
+Definition entry_wit (c : config) (e : bytes * node) : bool :=
+  negb (beq (fst e) tmp_name) &&
+  match check_user_file (fst e) with
+  | Some (u, adm) =>
+      adm && valid_name u &&
+      match supp_of_node c (snd e) with SuppInfo true _ _ _ => true | _ => false end
+  | None => false
+  end.
+
+Lemma check_loop_char c all : forall l found,
+  check_loop c all l found = forallb (entry_ok all) l && (found || existsb (entry_wit c) l).
+Proof.
+  induction l as [|[f n] r IH]; intros found; cbn [check_loop forallb existsb].
+  - now rewrite orb_false_r.
+  - unfold entry_ok at 1, entry_wit at 1. cbn [fst snd].
+    destruct (beq f tmp_name); cbn [orb negb andb]; [apply IH|].
+    destruct (check_user_file f) as [[u adm]|]; [|reflexivity].
+    destruct (valid_name u); cbn [negb orb andb].
+    + destruct (stat_file all (u ++ ext_of (negb adm))); cbn [andb]; try reflexivity.
+      destruct adm; cbn [andb orb]; rewrite IH; [|reflexivity].
+      now rewrite orb_assoc.
+    + rewrite andb_false_r. cbn [andb orb]. apply IH.
+Qed.
+
 Section Ops.
   Variable kdf : hasher -> bytes -> bytes -> option bytes.
 
@@ -21,23 +352,48 @@ Section Ops.
   Theorem unsupported_hidden_from_list c d u adm content l :
     NoDup (keys d) -> sole_file d u adm content -> is_supported c content = false ->
     list_users c d [] = Some l -> alookup u l = None.
-  Admitted.
+    Proof.
+    intros Hnd Hsole Hsup Hl.
+    apply (list_users_hidden c u d [] l); [|reflexivity|exact Hl].
+    intros f n a Hin Hc.
+    destruct (sole_entries d u adm content Hnd Hsole f n a Hin Hc) as (_ & -> & _).
+    now apply not_supported_node.
+  Qed.
 
   Theorem unsupported_shown_by_list_full c d u adm content l :
     NoDup (keys d) -> sole_file d u adm content -> is_supported c content = false ->
     list_full c d [] = Some l ->
     exists e, alookup u l = Some e /\ uf_supported e = false /\ uf_admin e = adm.
-  Admitted.
+    Proof.
+    intros Hnd Hsole Hsup Hl.
+    assert (Htmp : u ++ ext_of adm <> tmp_name).
+    { apply valid_not_tmp. apply Hsole. }
+    destruct (list_full_shown c u adm content Hsup Htmp d [] l) as (e & He & Hs & Ha).
+    - intros f n a Hin Hc.
+      destruct (sole_entries d u adm content Hnd Hsole f n a Hin Hc) as (-> & -> & _). auto.
+    - left. apply dlookup_In. apply Hsole.
+    - exact Hl.
+    - exists e. auto.
+  Qed.
 
   Theorem existing_file_blocks_add c d u adm content pw adm' o :
     sole_file d u adm content ->
     add_user kdf c d u pw adm' o = (d, RErr).
-  Admitted.
+    Proof.
+    intros Hsole. unfold add_user.
+    rewrite (sole_exists _ _ _ _ Hsole).
+    destruct Hsole as (Hv & _). rewrite Hv. reflexivity.
+  Qed.
 
   Theorem unsupported_update_refused c d u adm content pw o :
     sole_file d u adm content -> is_supported c content = false ->
     update_user kdf c d u pw o = (d, RErr).
-  Admitted.
+    Proof.
+    intros Hsole Hsup. unfold update_user.
+    rewrite (sole_exists _ _ _ _ Hsole).
+    destruct Hsole as (Hv & _ & Hf & _). rewrite Hv. cbn [negb].
+    unfold read_file. rewrite Hf, Hsup. reflexivity.
+  Qed.
 
   Theorem remove_deletes d u adm content :
     NoDup (keys d) -> sole_file d u adm content ->
@@ -45,25 +401,125 @@ Section Ops.
     dlookup (u ++ ext_user) (remove_user d u) = None /\
     (forall f, f <> u ++ ext_admin -> f <> u ++ ext_user ->
                dlookup f (remove_user d u) = dlookup f d).
-  Admitted.
+    Proof.
+    intros _ (Hv & _ & Hf & Hn). unfold remove_user. rewrite Hv. cbn [negb].
+    assert (Hau : u ++ ext_admin <> u ++ ext_user) by apply admin_neq_user.
+    assert (Hua : u ++ ext_user <> u ++ ext_admin) by (intros E; now apply Hau).
+    destruct adm; cbn [ext_of negb] in Hf, Hn.
+    - (* the admin file exists, the user file does not *)
+      assert (E1 : unlink (u ++ ext_admin) d = dremove (u ++ ext_admin) d).
+      { unfold unlink. now rewrite Hf. }
+      assert (E2 : unlink (u ++ ext_user) (dremove (u ++ ext_admin) d) = dremove (u ++ ext_admin) d).
+      { unfold unlink. rewrite dlookup_dremove_ne by exact Hau. now rewrite Hn. }
+      rewrite E1, E2. split; [apply dlookup_dremove_eq|]. split.
+      + rewrite dlookup_dremove_ne by exact Hau. exact Hn.
+      + intros f Hfa _. apply dlookup_dremove_ne. congruence.
+    - assert (E1 : unlink (u ++ ext_admin) d = d).
+      { unfold unlink. now rewrite Hn. }
+      assert (E2 : unlink (u ++ ext_user) d = dremove (u ++ ext_user) d).
+      { unfold unlink. now rewrite Hf. }
+      rewrite E1, E2. split; [|split].
+      + rewrite dlookup_dremove_ne by exact Hua. exact Hn.
+      + apply dlookup_dremove_eq.
+      + intros f _ Hfu. apply dlookup_dremove_ne. congruence.
+  Qed.
+
+
+  (* ---- the two possible outcomes of write_hash ---- *)
+  Lemma write_hash_ok c d u pw admin mc o d' :
+    write_hash kdf c d u pw admin mc o = (d', ROk) ->
+    exists h hs oldc d2,
+      cfg_hasher c (default c) = Some h /\
+      hash_generate kdf h (o_salt o) pw = Some hs /\
+      (if mc then dlookup (u ++ ext_of admin) d = None /\ oldc = []
+       else dlookup (u ++ ext_of admin) d = Some (File oldc)) /\
+      (forall f, f <> u ++ ext_of admin -> f <> tmp_name -> dlookup f d2 = dlookup f d) /\
+      d' = dset (u ++ ext_of admin)
+             (File (print_record h (o_ts o) (default c) hs ++ after_first_line oldc)) d2.
+  Proof.
+    unfold write_hash. intros H.
+    destruct (cfg_hasher c (default c)) as [h|]; [|discriminate].
+    destruct (hash_generate kdf h (o_salt o) pw) as [hs|] eqn:Eg; [|discriminate].
+    exists h, hs.
+    destruct (dlookup (u ++ ext_of admin) d) as [[old|k]|] eqn:El; destruct mc; try discriminate.
+    - (* existing regular file, no create *)
+      destruct (dlookup tmp_name d) as [[tc|tk]|] eqn:Et; try discriminate;
+        injection H as H; subst d'; exists old; eexists;
+        (split; [reflexivity|]); (split; [exact Eg|]); (split; [reflexivity|]);
+        (split; [|reflexivity]); intros f Hf Ht; auto.
+      apply dlookup_dset_ne. congruence.
+    - (* directory under that name *)
+      destruct (dlookup tmp_name d) as [[tc|tk]|]; discriminate.
+    - (* create *)
+      destruct (dlookup tmp_name (dset (u ++ ext_of admin) (File []) d)) as [[tc|tk]|] eqn:Et;
+        try discriminate;
+        injection H as H; subst d'; exists []; eexists;
+        (split; [reflexivity|]); (split; [exact Eg|]); (split; [auto|]);
+        (split; [|reflexivity]); intros f Hf Ht.
+      + apply dlookup_dset_ne. congruence.
+      + rewrite dlookup_dset_ne by congruence. apply dlookup_dset_ne. congruence.
+  Qed.
+
+  Lemma write_hash_err c d u pw admin mc o d' :
+    write_hash kdf c d u pw admin mc o = (d', RErr) ->
+    d' = d \/ (mc = false /\ exists k, dlookup (u ++ ext_of admin) d = Some (Dir k)).
+  Proof.
+    unfold write_hash. intros H.
+    destruct (cfg_hasher c (default c)) as [h|]; [|injection H as H; auto].
+    destruct (hash_generate kdf h (o_salt o) pw) as [hs|]; [|injection H as H; auto].
+    destruct (dlookup (u ++ ext_of admin) d) as [[old|k]|] eqn:El; destruct mc;
+      try (injection H as H; auto; fail).
+    - destruct (dlookup tmp_name d) as [[tc|tk]|]; try discriminate. injection H as H; auto.
+    - right. eauto.
+    - destruct (dlookup tmp_name (dset (u ++ ext_of admin) (File []) d)) as [[tc|tk]|];
+        try discriminate. injection H as H; auto.
+  Qed.
 
   (* ---------------- C15: frame, failures, read-only ---------------- *)
   (* a failing mutation leaves the directory exactly as it was *)
   Theorem failed_add_unchanged c d u pw adm o d' :
     add_user kdf c d u pw adm o = (d', RErr) -> d' = d.
-  Admitted.
+    Proof.
+    unfold add_user. intros H.
+    destruct (negb (valid_name u)); [injection H as H; auto|].
+    destruct (user_exists d u); try (injection H as H; auto; fail).
+    apply write_hash_err in H as [H|[H _]]; [auto|discriminate].
+  Qed.
 
   Theorem failed_update_unchanged c d u pw o d' :
     update_user kdf c d u pw o = (d', RErr) -> d' = d.
-  Admitted.
+    Proof.
+    unfold update_user. intros H.
+    destruct (negb (valid_name u)); [injection H as H; auto|].
+    destruct (user_exists d u) as [admin| |]; try (injection H as H; auto; fail).
+    unfold read_file in H.
+    destruct (dlookup (u ++ ext_of admin) d) as [[content|k]|] eqn:El;
+      try (injection H as H; auto; fail).
+    destruct (is_supported c content); [|injection H as H; auto].
+    apply write_hash_err in H as [H|[_ [k Hk]]]; [auto|].
+    rewrite El in Hk. discriminate.
+  Qed.
 
   Theorem failed_set_admin_unchanged d u adm d' :
     set_admin d u adm = (d', RErr) -> d' = d.
-  Admitted.
+    Proof.
+    unfold set_admin. intros H.
+    destruct (negb (valid_name u)); [injection H as H; auto|].
+    destruct (user_exists d u) as [cur| |]; try (injection H as H; auto; fail).
+    destruct (Bool.eqb cur adm); [discriminate|].
+    destruct (dlookup (u ++ ext_of cur) d) as [n|]; [|injection H as H; auto].
+    destruct (name_max <? len (u ++ ext_of adm)); [injection H as H; auto|].
+    match type of H with (if ?b then _ else _) = _ => destruct b end;
+      [discriminate|injection H as H; auto].
+  Qed.
 
   Theorem failed_init_unchanged c d u pw o d' :
     init_store kdf c d u pw o = (d', RErr) -> d' = d.
-  Admitted.
+    Proof.
+    unfold init_store. intros H.
+    destruct (dir_empty d); [|injection H as H; auto].
+    eapply failed_add_unchanged; eauto.
+  Qed.
 
   (* a successful update rewrites only the first line of the target's file;
      auxiliary data and every other entry (except the work area) are untouched *)
@@ -78,7 +534,20 @@ Section Ops.
       dlookup (u ++ ext_of adm) d' =
         Some (File (print_record h (o_ts o) (default c) hs ++ after_first_line old)) /\
       (forall f, f <> u ++ ext_of adm -> f <> tmp_name -> dlookup f d' = dlookup f d).
-  Admitted.
+    Proof.
+    intros _. unfold update_user. intros H.
+    destruct (negb (valid_name u)); [discriminate|].
+    destruct (user_exists d u) as [admin| |] eqn:Ex; try discriminate.
+    unfold read_file in H.
+    destruct (dlookup (u ++ ext_of admin) d) as [[content|k]|] eqn:El; try discriminate.
+    destruct (is_supported c content); [|discriminate].
+    apply write_hash_ok in H as (h & hs & oldc & d2 & Hh & Hg & Hold & Hfr & Hd').
+    cbv iota in Hold. rewrite El in Hold. injection Hold as Hold. subst oldc.
+    exists admin, content, h, hs.
+    repeat (split; [first [reflexivity|assumption]|]).
+    subst d'. split; [apply dlookup_dset_eq|].
+    intros f Hf Ht. rewrite dlookup_dset_ne by congruence. auto.
+  Qed.
 
   Theorem add_frame c d u pw adm o d' :
     NoDup (keys d) ->
@@ -89,7 +558,19 @@ Section Ops.
       dlookup (u ++ ext_of adm) d = None /\
       dlookup (u ++ ext_of adm) d' = Some (File (print_record h (o_ts o) (default c) hs)) /\
       (forall f, f <> u ++ ext_of adm -> f <> tmp_name -> dlookup f d' = dlookup f d).
-  Admitted.
+    Proof.
+    intros _. unfold add_user. intros H.
+    destruct (negb (valid_name u)); [discriminate|].
+    destruct (user_exists d u) as [admin| |] eqn:Ex; try discriminate.
+    apply write_hash_ok in H as (h & hs & oldc & d2 & Hh & Hg & Hold & Hfr & Hd').
+    cbv iota in Hold. destruct Hold as [Hnone ->].
+    exists h, hs.
+    repeat (split; [assumption|]).
+    subst d'. split.
+    - rewrite dlookup_dset_eq.
+      change (after_first_line []) with (@nil N). now rewrite app_nil_r.
+    - intros f Hf Ht. rewrite dlookup_dset_ne by congruence. auto.
+  Qed.
 
   (* set-admin moves the whole record, timestamp and auxiliary data included *)
   Theorem set_admin_frame d u adm d' :
@@ -100,19 +581,53 @@ Section Ops.
       dlookup (u ++ ext_of adm) d' = Some n /\
       (cur <> adm -> dlookup (u ++ ext_of cur) d' = None) /\
       (forall f, f <> u ++ ext_admin -> f <> u ++ ext_user -> dlookup f d' = dlookup f d).
-  Admitted.
+    Proof.
+    intros _. unfold set_admin. intros H.
+    destruct (negb (valid_name u)); [discriminate|].
+    destruct (user_exists d u) as [cur| |] eqn:Ex; try discriminate.
+    destruct (user_exists_yes _ _ _ Ex) as [[n0 Hn0] _].
+    destruct (Bool.eqb cur adm) eqn:Eb.
+    - apply Bool.eqb_prop in Eb. subst adm. injection H as H. subst d'.
+      exists cur, n0. split; [reflexivity|]. split; [exact Hn0|]. split; [exact Hn0|].
+      split; [congruence|auto].
+    - apply Bool.eqb_false_iff in Eb.
+      assert (adm = negb cur) as -> by (destruct adm, cur; cbn [negb]; congruence).
+      rewrite Hn0 in H.
+      destruct (name_max <? len (u ++ ext_of (negb cur))); [discriminate|].
+      match type of H with (if ?b then _ else _) = _ => destruct b end; [|discriminate].
+      injection H as H. subst d'.
+      exists cur, n0. split; [reflexivity|]. split; [exact Hn0|].
+      split; [apply dlookup_dset_eq|]. split.
+      + intros _. rewrite dlookup_dset_ne by (intros E; symmetry in E; revert E; apply ext_neq).
+        apply dlookup_dremove_eq.
+      + intros f Hfa Hfu.
+        assert (Hf : forall b, f <> u ++ ext_of b) by (intros []; assumption).
+        rewrite dlookup_dset_ne by (intros E; symmetry in E; revert E; apply Hf).
+        apply dlookup_dremove_ne. intros E; symmetry in E; revert E; apply Hf.
+  Qed.
 
   (* authenticate, exists, list, list-full, check never change the directory *)
   Theorem read_only_ops c d o orc :
     match o with OpAuth _ _ | OpExists _ | OpList | OpListFull | OpCheck => True | _ => False end ->
     snd (fst (step kdf c d o orc)) = d.
-  Admitted.
+    Proof. destruct o; cbn [step fst snd]; intros H; try destruct H; reflexivity. Qed.
 
   (* ---------------- C12: the upgradeable flag ---------------- *)
   Theorem upgradeable_iff c content pw upg ts :
     auth_content kdf c content pw = AuthOk upg ts ->
     exists r, parse_record content = Some r /\ (upg = true <-> r_pid r <> default c).
-  Admitted.
+    Proof.
+    unfold auth_content. intros H.
+    destruct (parse_record content) as [r|]; [|discriminate].
+    exists r. split; [reflexivity|].
+    destruct (cfg_hasher c (r_pid r)) as [h|]; [|discriminate].
+    destruct (beq (fmt_of h) (r_fmt r)); [|discriminate].
+    destruct (hash_check kdf h pw (r_hash r)); [|discriminate].
+    injection H as Hu _. subst upg.
+    destruct (default c =? r_pid r) eqn:E; cbn [negb].
+    - apply N.eqb_eq in E. split; [discriminate|congruence].
+    - apply N.eqb_neq in E. split; [congruence|reflexivity].
+  Qed.
 
   (* ---------------- C16: the consistency check is exact ---------------- *)
   (* entries are built from valid, not over-long user names *)
@@ -130,10 +645,61 @@ Section Ops.
   Theorem check_exact c d listing :
     NoDup (keys d) -> names_ok d -> Permutation listing d ->
     (check_loop c d listing false = true <-> spec_valid c d).
-  Admitted.
+    Proof.
+    intros Hnd Hnames Hperm. rewrite check_loop_char. cbn [orb].
+    rewrite andb_true_iff, forallb_forall, existsb_exists.
+    assert (Hin : forall e, In e listing <-> In e d).
+    { intros e; split; apply Permutation_in; [exact Hperm | now apply Permutation_sym]. }
+    split.
+    - intros [Hall [[f n] [Hi Hw]]]. unfold spec_valid. split; [|split].
+      + intros f0 n0 Hin0 Htmp Hnone.
+        specialize (Hall (f0, n0) (proj2 (Hin _) Hin0)).
+        unfold entry_ok in Hall. cbn [fst] in Hall.
+        apply beq_neq in Htmp. rewrite Htmp, Hnone in Hall. discriminate.
+      + intros f0 n0 u adm Hin0 Htmp Hc.
+        specialize (Hall (f0, n0) (proj2 (Hin _) Hin0)).
+        unfold entry_ok in Hall. cbn [fst] in Hall.
+        apply beq_neq in Htmp. rewrite Htmp, Hc in Hall.
+        destruct (Hnames f0 n0 u adm Hin0 Hc) as [Hv _]. rewrite Hv in Hall.
+        cbn [negb orb] in Hall.
+        destruct (stat_file d (u ++ ext_of (negb adm))) eqn:Es; try discriminate.
+        now apply stat_file_no.
+      + unfold entry_wit in Hw. cbn [fst snd] in Hw.
+        apply andb_true_iff in Hw as [Htmp Hw].
+        destruct (check_user_file f) as [[u adm]|] eqn:Hc; [|discriminate].
+        apply andb_true_iff in Hw as [Hw Hs]. apply andb_true_iff in Hw as [Ha Hv].
+        subst adm. apply check_user_file_inv in Hc. cbn [ext_of] in Hc. subst f.
+        destruct n as [content|k]; cbn [supp_of_node] in Hs; [|discriminate].
+        exists u, content. split; [|split].
+        * apply In_dlookup; [exact Hnd|]. now apply Hin.
+        * apply beq_neq. now destruct (beq (u ++ ext_admin) tmp_name).
+        * unfold is_supported. exact Hs.
+    - intros (H1 & H2 & (u & content & Hl & Htmp & Hs)). split.
+      + intros [f n] Hi. apply Hin in Hi. unfold entry_ok. cbn [fst].
+        destruct (beq f tmp_name) eqn:Et; [reflexivity|]. cbn [orb].
+        apply beq_neq in Et.
+        destruct (check_user_file f) as [[u0 adm]|] eqn:Hc;
+          [|exfalso; exact (H1 f n Hi Et Hc)].
+        destruct (Hnames f n u0 adm Hi Hc) as [Hv Hlen]. rewrite Hv. cbn [negb orb].
+        rewrite stat_file_ext by exact Hlen.
+        now rewrite (H2 f n u0 adm Hi Et Hc).
+      + exists (u ++ ext_admin, File content). split.
+        * apply Hin. now apply dlookup_In.
+        * unfold entry_wit. cbn [fst snd supp_of_node].
+          apply beq_neq in Htmp. rewrite Htmp, check_user_file_admin.
+          apply dlookup_In in Hl.
+          destruct (Hnames _ _ u true Hl (check_user_file_admin u)) as [Hv _].
+          rewrite Hv. cbn [negb andb]. unfold is_supported in Hs. exact Hs.
+  Qed.
 
   (* initialisation succeeds only on an empty directory (ignoring .tmp) *)
   Theorem init_only_if_empty c d u pw o d' :
     init_store kdf c d u pw o = (d', ROk) -> d = [] \/ exists k, d = [(tmp_name, Dir k)].
-  Admitted.
+    Proof.
+    unfold init_store. intros H.
+    destruct (dir_empty d) eqn:E; [|discriminate].
+    unfold dir_empty in E.
+    destruct d as [|[n [cont|k]] [|e r]]; try discriminate; [now left|].
+    right. apply beq_eq in E. subst n. eauto.
+  Qed.
 End Ops.
